@@ -95,6 +95,15 @@ def _fresh(curve, scenario, seed):
     fp, g, n = curve.curve, curve.generator, int(curve.order)
     if scenario == "gen":
         return _PJ(fp, int(g.x()), int(g.y()), 1, n, generator=True), (int(g.x()), int(g.y()))
+    if scenario in ("genz", "gentab"):
+        # the generator in another representative (x z^2, y z^3, z): rescaling really changes the object; 'gentab': its
+        # multiplication table is already there (a multiplication was done before the threads start)
+        p = int(fp.p())
+        z = 2 + seed % (p - 3)
+        P = _PJ(fp, int(g.x()) * z * z % p, int(g.y()) * z ** 3 % p, z, n, generator=True)
+        if scenario == "gentab":
+            P * 5
+        return P, (int(g.x()), int(g.y()))
     p = int(fp.p())
     c = dict(p=p, a=int(fp.a()), b=int(fp.b()))
     q = _refec.mul(c, 1 + seed % (n - 1), (int(g.x()), int(g.y())))
@@ -160,6 +169,10 @@ def prop_c20shared(cname, scenario, aop, k1, k2, stride, offset):
         P, _ = _fresh(curve, scenario, k1)
         seen = [0]
         got_b = []
+        # what the second thread does while the first is suspended: everything, everything backwards, or ONE operation only (a
+        # later operation of the same thread may repair what an earlier one broke, e.g. rebuild a table)
+        nb = len(b_ops)
+        sel = (list(range(nb)), list(range(nb))[::-1], [(k // 3) % nb])[k % 3]
 
         def tracer(frame, event, arg):
             if event == "call" and frame.f_code.co_filename == EC_FILE:
@@ -168,8 +181,8 @@ def prop_c20shared(cname, scenario, aop, k1, k2, stride, offset):
                         if seen[0] == k:
                             sys.settrace(None)
                             try:
-                                for ob in b_ops:
-                                    got_b.append(ob(P))
+                                for j in sel:
+                                    got_b.append(b_ops[j](P))
                             finally:
                                 seen[0] += 1
                                 sys.settrace(tracer)
@@ -188,10 +201,10 @@ def prop_c20shared(cname, scenario, aop, k1, k2, stride, offset):
             return f"FAIL preempted operation raises {type(e).__name__} (preemption before line event {k} of {total})"
         where = f"preemption before line event {k} of {total} of {aop} on the shared {scenario} object"
         if got_a != want_a:
-            return f"FAIL result of the preempted thread differs ({where})"
-        if got_b and got_b != want_b:
-            bad = [i for i, (x, y) in enumerate(zip(got_b, want_b)) if x != y]
-            return f"FAIL result {bad} of the second thread differs ({where})"
+            return f"FAIL result of the preempted thread differs ({where}; second thread ran operations {sel})"
+        if got_b and got_b != [want_b[j] for j in sel]:
+            bad = [j for j, x in zip(sel, got_b) if x != want_b[j]]
+            return f"FAIL result {bad} of the second thread differs ({where}; second thread ran operations {sel})"
         done += 1
     return f"ok {done} of {total}"
 
